@@ -191,7 +191,12 @@ Definition check_C10_inst (sc : scenario) (ins : list (N * input)) (sent : list 
   let '(i, ins_i) := ii in
   let c := sc_cfg sc in
   let svc := in_service ins_i in
-  let mine := filter (fun x => is_offer_of svc (st_entry x)) sent in
+  (* when another instance shares service and instance id (a service announced again with other options), an offer is
+     attributed by its whole content *)
+  let twins := existsb (fun jj => negb (fst jj =? i) && (s_sid (in_service (snd jj)) =? s_sid svc)
+                                  && (s_iid (in_service (snd jj)) =? s_iid svc)) (sc_insts sc) in
+  let mine := filter (fun x => is_offer_of svc (st_entry x)
+                               && (negb twins || entry_ids_eqb (st_entry x) (create_offer_entry svc (e_ttl (st_entry x))))) sent in
   let ivs := intervals i lt in
   match the_draw sc (t_init_min c) (t_init_max c) with
   | None => []
